@@ -17,6 +17,7 @@ type G struct {
 	lens []int
 	nums []uint32
 	strs [][]byte
+	bins [][]byte
 }
 
 // NewG makes a generator with a budget of boundary-size values (16383..65535 bytes).
@@ -85,7 +86,7 @@ func (g *G) Filter() []byte {
 	return g.Str(g.Len1())
 }
 
-var specials = []string{"#", "+", "a/+/b", "a/#", "$SYS/broker/load", "$share/group/topic", "$share", "$share/g", "/", "//", " ", "a b", "MQTT", "MQIsdp", "mqtt", "Mqtt", "MQTT5", "MQT", "\u00e9\u20ac", "\U0001F600", "0", "null", "%s%d", "../x"}
+var specials = []string{"#", "+", "a/+/b", "a/#", "$SYS/broker/load", "$share/group/topic", "$share", "$share/g", "/", "//", " ", "a b", "MQTT", "MQIsdp", "mqtt", "Mqtt", "MQTT5", "MQT", "\u00e9\u20ac", "\U0001F600", "0", "null", "%s%d", "../x", "%", "100%", "password", "secret", "token", "Authorization", "api-key", "user", "admin", "content-type", "true", "false", "id"}
 
 func (g *G) Str(n int) []byte {
 	if n == 0 {
@@ -120,10 +121,19 @@ func (g *G) Str(n int) []byte {
 	return b
 }
 
+// punct: characters that formatters, escapers, templating and query languages
+// give a meaning to (no space and no control characters: a generated string
+// must not be able to imitate the "<n> bytes" of String()).
+const punct = "%%\\\"'{}$<>&;=,:*?!~|^()[]@`ab0"
+
 func (g *G) str0(n int) []byte {
 	b := g.T.Bytes(n)
+	abc := alphabet
+	if n <= 64 && g.T.Bool(1, 5) {
+		abc = punct
+	}
 	for i := range b {
-		b[i] = alphabet[int(b[i])%len(alphabet)]
+		b[i] = abc[int(b[i])%len(abc)]
 	}
 	// sometimes start with a multi-byte character
 	if n >= 3 && g.T.Bool(1, 8) {
@@ -139,7 +149,19 @@ func (g *G) Bin(n int) []byte {
 	if n == 0 {
 		return []byte{}
 	}
-	return g.T.Bytes(n)
+	if n <= 24 && g.T.Bool(1, 12) {
+		// the same bytes as an earlier binary field of this packet
+		for _, old := range g.bins {
+			if len(old) == n {
+				return append([]byte{}, old...)
+			}
+		}
+	}
+	b := g.T.Bytes(n)
+	if n <= 24 && len(g.bins) < 12 {
+		g.bins = append(g.bins, b)
+	}
+	return b
 }
 
 var magic16 = []uint16{1, 2, 10, 13, 100, 127, 128, 255, 256, 257, 1000, 1024, 1883, 4096, 8192, 8883, 16383, 16384, 32767, 32768, 0x0A0D, 0x5555, 0xAAAA, 0x00FF, 0xFF00, 65280, 65534, 65535}
